@@ -438,6 +438,7 @@ func runC16(t *verifsim.Tape, cfg engine.Config) *engine.Outcome {
 	o.Digest = o.Distinct
 	o.Features["patterns"] = len(pats)
 	o.Features["middlewares"] = mwCount
+	o.Features["_evaluations"] = nReq
 	o.Sample = samples
 	return o
 }
